@@ -101,6 +101,36 @@ func H_C17_contract() {
 	vReach("c17-contract")
 }
 
+// H_C17_range: AscendRange with bounds and keys of different lengths (a bound that is a prefix or
+// an extension of a stored key or of the other bound), for each implementation.
+func H_C17_range() {
+	eng := vChoice("engine", 0, 1)
+	rows := vStorage(eng).Create(&btapb.Table{Name: vTable})
+	keys := c01Keys("key", 2, 2)
+	for i := range keys {
+		rows.ReplaceOrInsert(c17Row(keys[i], []byte{byte('a' + i)}))
+	}
+	lo := vNondetBytes("scan.lo", vChoice("scan.lo.len", 1, 2))
+	hi := vNondetBytes("scan.hi", vChoice("scan.hi.len", 1, 2))
+	var visited [][]byte
+	rows.AscendRange(lo, hi, func(r *btpb.Row) bool {
+		visited = append(visited, r.Key)
+		return true
+	})
+	var n int64
+	okAll := true
+	for i := range keys {
+		in := vAnd(vBytesCmp(keys[i], lo) >= 0, vBytesCmp(keys[i], hi) < 0)
+		for j := range visited {
+			okAll = vAnd(okAll, vImplies(vAnd(in, n == int64(j)), vBytesEq(visited[j], keys[i])))
+		}
+		n += vIteInt64(in, 1, 0)
+	}
+	vAssert(n == int64(len(visited)), "range:visits-exactly-the-keys-in-range")
+	vAssert(okAll, "range:in-order")
+	vReach("c17-range")
+}
+
 // H_C17_diff: the same request program on two servers that differ only in engine.
 func H_C17_diff() {
 	mk := func(eng int) *server {
@@ -173,4 +203,5 @@ func H_C17_diff() {
 func init() {
 	vHarnesses["H_C17_contract"] = H_C17_contract
 	vHarnesses["H_C17_diff"] = H_C17_diff
+	vHarnesses["H_C17_range"] = H_C17_range
 }
